@@ -359,7 +359,7 @@ theorem forceLoop_under {frc : Closure → MSt → Res PVal × MSt}
 
 theorem forceAll_under (fuel : Nat) (p : Path) (cl : Closure) (st : MSt) (hcl : Under p cl) :
     EvExt p st (forceAll c alt fuel cl st).2 ∧ ∀ x, (forceAll c alt fuel cl st).1 = .ok x → x.AllCl (Under p) :=
-  forceLoop_under (fun p cl st h => force_under fuel p cl st h) p fuel (.deferred cl) st (allCl_deferred.2 hcl)
+  forceLoop_under (fun p cl st h => force_under fuel p cl st h) p (fuel + 2) (.deferred cl) st (allCl_deferred.2 hcl)
 
 end path
 
